@@ -132,6 +132,19 @@ class StrFlavour(Flavour):
         return NAMES[d - 1]
 
 
+WORDS = ["a", "ab", "ba", "b", "aa", "bab", "A", "abc"]
+
+
+class WordFlavour(Flavour):
+    """strings for which re.fullmatch / match / search differ"""
+
+    is_str = True
+    name_sorted = False
+
+    def _make(self, d):
+        return WORDS[d - 1]
+
+
 class IntFlavour(Flavour):
     def _make(self, d):
         return d * 7
@@ -211,6 +224,7 @@ def make(name, typed=False) -> Flavour:
     cls = {
         "str": StrFlavour,
         "int": IntFlavour,
+        "words": WordFlavour,
         "falsy": FalsyFlavour,
         "tuple": TupleFlavour,
         "dataclass": DataclassFlavour,
